@@ -232,7 +232,11 @@ def stage_lr(work, tier, seed):
                                               trail=seps[1])
                 for partial in (False, True):
                     ins.append({"iid": iid, "text": text_in, "lex": lex, "partial": partial,
-                                "meta": {"kind": kind}})
+                                "meta": {"kind": kind, "anylex": False}})
+                # the same input through a user-style lexer that ignores the expected tokens
+                if not g.get("layout") and iid % 2 == 0:
+                    ins.append({"iid": iid, "text": text_in, "lex": lex, "partial": False, "lexer": "any",
+                                "meta": {"kind": kind, "anylex": True}})
                 inputs["%s#%d" % (cid, iid)] = [text_in, lex]
             gtext[cid] = text
             cases.append({"id": cid, "grammar": text, "cfg": {"algo": "lr", "tt": tt},
@@ -321,7 +325,8 @@ def stage_mci_lr(work, tier, seed):
             if b["status"] == "err" and b["la"] > 0:
                 toks.append(names[b["la"] - 1])
             text_in, lex = G.render_input(g, toks, None)
-            ins.append({"iid": iid, "text": text_in, "lex": lex, "partial": False, "meta": {"kind": "replay"}})
+            ins.append({"iid": iid, "text": text_in, "lex": lex, "partial": False,
+                        "meta": {"kind": "replay", "anylex": False}})
             pred["%s#%d" % (cid, iid)] = b["status"]
             rinputs["%s#%d" % (cid, iid)] = [text_in, lex]
         nod = tab["nodis"].get(cid)
